@@ -355,3 +355,21 @@ def _a2(h, node, within):
 def r5(ctx, R):
     rel, cn = SIBS[1]
     _restrict_checks(ctx, R, rel, cn, mass=True)
+
+
+@rule('C10', 'C10.R6', 'the coarse sweep solves the tau-corrected problem: every sweeper that can sit on a coarse level adds tau[m] to the known terms of the node-m solve, exactly once, next to the integral (update_nodes signatures, shared with C02.R2)', floor=13)
+def r6(ctx, R):
+    from . import c02
+    c02.r2(ctx, R)
+
+
+@rule('C10', 'C10.R7', 'the collocation transfer matrices are the Lagrange interpolation matrices between the two node sets; the identity shortcut requires EQUAL node sets, not just equal counts (shared with C11.R7)', floor=4)
+def r7(ctx, R):
+    from . import c11
+    c11.r7(ctx, R)
+
+
+@rule('C10', 'C10.R8', 'node-parallel transfer: base_transfer_MPI restricts tau (own and inherited) through the same Rcoll-weighted sums as the serial class - reference normal forms incl. the Reduce payloads (shared with C08.R6)', floor=9)
+def r8(ctx, R):
+    from . import c08
+    c08.r6(ctx, R)
